@@ -1989,6 +1989,15 @@ class Interp:
         if op in ('is', 'is not') and oka and okb and \
                 (pa is None or pb is None or isinstance(pa, bool)):
             return C((pa is pb) == (op == 'is'))
+        if op in ('is', 'is not') and (_is_sentinel(a) or _is_sentinel(b)):
+            # a private `object()` is identical to itself only
+            if a == b:
+                return C(op == 'is')
+            if kind(a) in ('attr', 'const', 'list', 'dict', 'tuple', 'sub',
+                           'param') or \
+                    kind(b) in ('attr', 'const', 'list', 'dict', 'tuple',
+                                'sub', 'param'):
+                return C(op == 'is not')
         if op in ('is', 'is not') and b == NONE:
             t = truth(a, st)
             if t is True or kind(a) in ('list', 'dict', 'tuple', 'set',
@@ -2485,6 +2494,17 @@ class Interp:
             v = self.getattr_term(args[0], args[1][1], st)
             if kind(v) != 'attr':
                 return [(st, v, None)]
+            if len(args) == 3 and _is_sentinel(args[2]) and not kwargs:
+                # x = getattr(o, 'name', _absent) ... `x is not _absent`: the
+                # spelling of hasattr(o, 'name') + o.name with a private
+                # sentinel (an `object()` nobody stores anywhere)
+                h = ('call', 'hasattr', ('builtin', 'hasattr'),
+                     (args[0], args[1]), (), None)
+                s_yes, s_no = st.copy(), st.copy()
+                self.assume(s_yes, h, True)
+                self.assume(s_no, h, False)
+                self._count()
+                return [(s_yes, v, None), (s_no, args[2], None)]
         # method calls on tracked lists / dicts held in a simple slot
         res = self._container_method(n, fn, args, kwargs, st, site)
         if res is not None:
@@ -2867,6 +2887,12 @@ def _is_closed(t):
 # ---------------------------------------------------------------------------
 # substitution + re-folding of terms (used to evaluate small extracted
 # expressions over a finite set of values, e.g. flag bits or padding residues)
+
+def _is_sentinel(t):
+    """`object()` evaluated at module level: a value of its own."""
+    return kind(t) == 'call' and t[2] == ('builtin', 'object') and \
+        not t[3] and not t[4]
+
 
 def subst_fold(t, mapping):
     """Replace sub-terms per mapping (term -> term) and constant-fold the
